@@ -14,8 +14,8 @@ from .. import cdrv, engine, gen, irvm, native, sweep, taco
 from ..common import ROOT, rm_tree, work_dir
 
 PLAN = {
-    "quick": dict(asan_cases=160, batch=28, valgrind_cases=60),
-    "thorough": dict(asan_cases=2400, batch=60, valgrind_cases=1500),
+    "quick": dict(asan_cases=160, batch=28, valgrind_cases=60, msan_items=112),
+    "thorough": dict(asan_cases=2400, batch=60, valgrind_cases=1500, msan_items=4800),
 }
 
 
@@ -116,9 +116,9 @@ def run_native(run, tier):
         b = plan["batch"]
         from concurrent.futures import ThreadPoolExecutor
 
-        def do_chunk(i):
+        def do_chunk(i, sanitizer="asan"):
             chunk = items[i : i + b]
-            exe, err = cdrv.build_binary([c for _, c in chunk], wd, f"asan{i}", "asan")
+            exe, err = cdrv.build_binary([c for _, c in chunk], wd, f"{sanitizer}{i}", sanitizer)
             if exe is None:
                 return [("build-failed", err, None, None)]
             res = []
@@ -148,6 +148,22 @@ def run_native(run, tier):
                     if any(c["ret"] != 0 for c in dump):
                         run.violation("emitted-c:nonzero-return", {"calls": nc.calls, "case": case.describe()})
                     run.nontrivial(hash((case.key(), tuple(nc.calls), "asan")))
+        # MemorySanitizer leg (clang): the binary links only libc, so every dependency is instrumented;
+        # every described cell is printed by the driver, so an uninitialised stored cell is reported
+        n_msan = plan["msan_items"]
+        with ThreadPoolExecutor(max_workers=12) as pool:
+            mres = list(pool.map(lambda i: do_chunk(i, "msan"), range(0, min(len(items), n_msan), b)))
+        for res in mres:
+            if res and res[0][0] == "build-failed":
+                run.inconclusive_because(f"MSan driver did not compile: {res[0][1][-300:]}")
+                continue
+            for st, dump, errtail, (case, nc) in res:
+                run.evaluated()
+                run.count("msan_kernel_runs", len(nc.calls))
+                if st == "timeout":
+                    run.inconclusive_because("an MSan case hit the wall-clock watchdog")
+                elif st != "ok":
+                    run.violation(f"emitted-c-msan:{st}", {"calls": nc.calls, "case": case.describe(), "stderr": errtail[-800:]})
         if vg is not None:
             vg.finish(1500 if tier == "quick" else 6 * 3600)
         if run.counters.get("asan_ubsan_kernel_runs", 0) < 100:
